@@ -433,4 +433,148 @@ example : getBlobsMkdir (absPath defaultRoot) (sSha256 ++ cColon :: List.replica
     getBlobsMkdir (absPath defaultRoot) ([46, 46, 47] ++ sSha256 ++ cColon :: List.replicate 64 97) = none := by decide
 
 
+/-! ## 16. `DiskCache.Links` / `pathToName`: the round trip through the directory -/
+
+
+/-- `string([]rune(s))` is the identity on ASCII -/
+theorem runesRoundTrip_ascii (l : Bytes) (h : ∀ c ∈ l, c.toNat < 128) : runesRoundTrip 0 l = l := by
+  induction l with
+  | nil => rfl
+  | cons x xs ih =>
+    have hx : x < 0x80 := by
+      have := h x List.mem_cons_self
+      exact UInt8.lt_iff_toNat_lt.mpr (by simpa using this)
+    have hl : utf8Len (x :: xs) = 1 := by simp [utf8Len, hx]
+    simp only [runesRoundTrip, hl]
+    rw [ih (fun c hc => h c (List.mem_cons_of_mem _ hc))]
+
+/-- **Round trip through the directory** (`DiskCache.Links` ∘ `Link`): for every string the cache accepts as a name, the link
+    path it creates, `manifests/<host>/<ns>/<model>/<tag>`, is listed by `Links()` (`pathToName`) as exactly the printed
+    name, and that listed name is accepted again and addresses the same path. -/
+theorem pathToName_roundtrip (s np : Bytes) (h : nameToPath s = some np) :
+    pathToName (pathJoin [sManifests, np]) = toStr (parseN s) ∧
+    nameToPath (pathToName (pathJoin [sManifests, np])) = some np := by
+  rcases nameToPath_shape s with hn | ⟨hfq, hnp, hsafe⟩
+  · rw [hn] at h; cases h
+  · rw [hnp] at h
+    have hnp' := Option.some.inj h
+    have hfqM : isFQM (parseN s) = true := by rw [isFQM_eq_isFQN]; exact hfq
+    have p := fqParts_of_isFQM hfqM
+    have hascii := manifest_want_ascii s hfq
+    generalize parseN s = n at *
+    have e1 : pathToName (pathJoin [sManifests, np]) = toStr n := by
+      rw [← hnp', pathJoin_manifests _ (by simp) hsafe, toStr_fq p]
+      obtain ⟨x, hs, hx⟩ := List.exists_cons_of_ne_nil p.hne
+      have hjoin : joinWith cSlash [sManifests, n.host, n.ns, n.model, n.tag]
+          = sManifests ++ cSlash :: (x :: (hs ++ cSlash :: n.ns ++ cSlash :: n.model ++ cSlash :: n.tag)) := by
+        simp [joinWith, hx]
+      have hasc : ∀ c ∈ x :: (hs ++ cSlash :: n.ns ++ cSlash :: n.model ++ cColon :: n.tag), c.toNat < 128 := by
+        intro c hc
+        have hcol : cColon.toNat < 128 := by decide
+        rw [hjoin] at hascii
+        simp only [List.mem_cons, List.mem_append] at hc hascii
+        rcases hc with rfl | ((hc | rfl | hc) | rfl | hc) | rfl | hc
+        all_goals first | exact hcol | (apply hascii; simp [*])
+      rw [hjoin]
+      unfold pathToName
+      have ht : (sManifests ++ cSlash :: (x :: (hs ++ cSlash :: n.ns ++ cSlash :: n.model ++ cSlash :: n.tag))).take 10
+          = sManifestsSlash := by simp [sManifests, sManifestsSlash, cSlash]
+      have hd : (sManifests ++ cSlash :: (x :: (hs ++ cSlash :: n.ns ++ cSlash :: n.model ++ cSlash :: n.tag))).drop 10
+          = x :: (hs ++ cSlash :: n.ns ++ cSlash :: n.model ++ cSlash :: n.tag) := by simp [sManifests]
+      simp only [ht, hd, beq_self_eq_true, if_true]
+      rw [splitLast_append _ (hs ++ cSlash :: n.ns ++ cSlash :: n.model) n.tag cSlash (by simp)
+        (fun c hc => by simpa using p.tslash c hc)]
+      simp only
+      rw [runesRoundTrip_ascii _ hasc, hx]
+      simp
+    refine ⟨e1, ?_⟩
+    rw [e1]
+    have hpp : parseN (toStr n) = n := print_parse_names n hfq
+    simp only [nameToPath, hpp, hfq, if_true]
+    rw [← hnp', pathJoin_parts hfqM]
+
+example : nameToPath [104, 47, 110, 47, 109, 58, 116] = some [104, 47, 110, 47, 109, 47, 116] ∧
+    pathToName (pathJoin [sManifests, [104, 47, 110, 47, 109, 47, 116]]) = [104, 47, 110, 47, 109, 58, 116] ∧
+    pathToName (sManifestsSlash ++ [0xC5, 0xBF, 47, 110, 47, 109, 47, 0xFF]) = [0xC5, 0xBF, 47, 110, 47, 109, 58, 0xEF, 0xBF, 0xBD] := by
+  decide
+
+
+/-! ## 17. the third printer, `Name.DisplayShortest` -/
+
+
+theorem cutTag_append (b t : Bytes) (hb : b ≠ []) (ht : t ≠ []) (hts : ∀ c ∈ t, c ≠ cSlash) (htc : ∀ c ∈ t, c ≠ cColon) :
+    cutTag (b ++ cColon :: t) = (b, t) := by
+  unfold cutTag
+  rw [splitLast_append _ _ _ cColon (by decide)]
+  · simp only [orMissing_ne hb, orMissing_ne ht]; simp
+  · intro x hx
+    have := hts x hx; have := htc x hx
+    simp [*]
+
+theorem cutPromised_append (b a : Bytes) (hb : b ≠ []) (ha : a ≠ []) (has : ∀ c ∈ a, c ≠ cSlash) :
+    cutPromised cSlash (b ++ cSlash :: a) = some (b, a) := by
+  unfold cutPromised
+  rw [splitLast_append _ b a cSlash (by simp)]
+  · simp only [orMissing_ne hb, orMissing_ne ha]
+  · intro x hx; simpa using has x hx
+
+theorem cutPromised_none (s : Bytes) (h : ∀ c ∈ s, c ≠ cSlash) : cutPromised cSlash s = none := by
+  unfold cutPromised
+  rw [splitLast_none _ _ (fun c hc => by simpa using h c hc)]
+
+/-- **The third printer** (`Name.DisplayShortest`, what `list` / `ps` show): for every fully qualified name, reading the
+    printed form back with `ParseName` gives the same model and tag, the same host unless the host is a case variant of
+    `registry.ollama.ai` (then the default spelling), and the same namespace unless host and namespace are both case variants of
+    the defaults.  So the round trip is exact except for the letter case of an abbreviated default part. -/
+theorem displayShortest_roundtrip (n : Name) (h : isFQM n = true) :
+    (parseName (displayShortest n)).model = n.model ∧ (parseName (displayShortest n)).tag = n.tag ∧
+    ((parseName (displayShortest n)).host = n.host ∨
+      (equalFold sDefaultHost n.host = true ∧ (parseName (displayShortest n)).host = sDefaultHost)) ∧
+    ((parseName (displayShortest n)).ns = n.ns ∨
+      (equalFold sDefaultHost n.host = true ∧ equalFold sLibrary n.ns = true ∧
+        (parseName (displayShortest n)).ns = sLibrary)) := by
+  have p := fqParts_of_isFQM h
+  have hm_slash : ∀ c ∈ n.model, c ≠ cSlash := p.mslash
+  cases hh : equalFold sDefaultHost n.host with
+  | false =>
+    have e : displayShortest n = toStr n := by
+      rw [toStr_fq p]; simp [displayShortest, hh]
+    rw [e, (print_parse_model n h).2]
+    exact ⟨rfl, rfl, Or.inl rfl, Or.inl rfl⟩
+  | true =>
+    cases hn : equalFold sLibrary n.ns with
+    | false =>
+      have e : displayShortest n = (n.ns ++ cSlash :: n.model) ++ cColon :: n.tag := by
+        simp [displayShortest, hh, hn]
+      have hb : parseNameBare (displayShortest n) = { ns := n.ns, model := n.model, tag := n.tag } := by
+        rw [e]
+        unfold parseNameBare
+        simp only [cutTag_append (n.ns ++ cSlash :: n.model) n.tag (by simp) p.tne p.tslash p.tcolon,
+          cutPromised_append n.ns n.model p.nne p.mne p.mslash, cutPromised_none n.ns p.nslash]
+      have hnsne : n.ns.isEmpty = false := by simpa [List.isEmpty_iff] using p.nne
+      have htne : n.tag.isEmpty = false := by simpa [List.isEmpty_iff] using p.tne
+      rw [parseName, hb]
+      simp [merge, orElse, defaultName, hnsne, htne]
+    | true =>
+      have e : displayShortest n = n.model ++ cColon :: n.tag := by
+        simp [displayShortest, hh, hn]
+      have hmt : ∀ c ∈ n.model, c ≠ cSlash := p.mslash
+      have hb : parseNameBare (displayShortest n) = { model := n.model, tag := n.tag } := by
+        rw [e]
+        unfold parseNameBare
+        simp only [cutTag_append n.model n.tag p.mne p.tne p.tslash p.tcolon, cutPromised_none n.model p.mslash]
+      have htne : n.tag.isEmpty = false := by simpa [List.isEmpty_iff] using p.tne
+      rw [parseName, hb]
+      simp [merge, orElse, defaultName, htne]
+
+/-- the exception is real: `REGISTRY.OLLAMA.AI/Library/m:t` is printed as `m:t`, which reads back with the default spellings
+    (a different legacy manifest path; the lookup that bridges it is `getExistingName`, C04) -/
+theorem displayShortest_case_witness :
+    let n : Name := { host := sDefaultHost.map (fun c => if 97 ≤ c ∧ c ≤ 122 then c - 32 else c), ns := [76, 105, 98, 114, 97, 114, 121],
+                      model := [109], tag := [116] }
+    isFQM n = true ∧ displayShortest n = [109, 58, 116] ∧ parseName (displayShortest n) ≠ n ∧
+    filepathM (parseName (displayShortest n)) ≠ filepathM n := by
+  decide
+
+
 end OllamaVerif.C13
